@@ -120,6 +120,8 @@ def replay(verdict, exe, res, aspects, seed=0, tag="api", pol=None, sigprefix="a
         lines = schema_lines("S", schema)
         if b.get("fail2"):
             lines.append("failat valid2 %d" % b["fail2"])
+        if b.get("rw2"):
+            lines.append("failat rewrite2 %d" % b["rw2"])
         lines.append("init c1 S %d" % FLAGBITS["COMMENTS"])
         if b.get("pre"):
             lines.append("parsebuf c1 %s" % enc(pretext))
@@ -145,6 +147,8 @@ def replay(verdict, exe, res, aspects, seed=0, tag="api", pol=None, sigprefix="a
         desc = ("pre; " if b.get("pre") else "") + "; ".join(call_text(e["call"]) for e in b["calls"])
         if b.get("fail2"):
             desc = "veto#%d; %s" % (b["fail2"], desc)
+        if b.get("rw2"):
+            desc = "rewrite#%d; %s" % (b["rw2"], desc)
         distinct.add(desc)
         verdict.cov["traces_validated_against_impl"] += 1
         rep = {"behaviour": b, "pretext": pretext}
